@@ -243,6 +243,65 @@ def copy_tree(t):
     return ('e', t[1], t[2], t[3], list(t[4]), [copy_tree(k) for k in t[5]])
 
 
+DEEP_SHAPES = [
+    ('<div>', '</div>', '<span id="leaf" dir="auto">x</span>', ''),
+    ('<b>', '</b>', '\u05d0\u05d1<i id="leaf"></i>', ' dir="auto"'),
+    ('<fieldset>', '</fieldset>', '<input id="leaf" type="radio" name="g"><input type="submit">', ''),
+    ('<span>', '</span>', '<input id="leaf" type="text" dir="auto" value=""><bdi>1</bdi>', ' lang="de-CH"'),
+]
+
+
+def deep_doc(k, depth):
+    import bs4
+    o, c, leaf, pattr = DEEP_SHAPES[k]
+    return bs4.BeautifulSoup(f'<html><body><form><p id="top"{pattr}>' + o * depth + leaf + c * depth + '</p></form></body></html>',
+                             'html.parser')
+
+
+def deep_sweep(chk, rng, raised):
+    """Trees nested deeper than the interpreter's recursion limit (a chain of `depth` elements around a leaf, in the shapes
+    that make a walk long: plain chain, chain under dir=auto with the first strong character at the bottom, chain of
+    fieldsets / forms / labels around a control, chain below an element with lang): every pseudo-class of ALL_PSEUDO plus
+    combinator forms, through select / select_one / match / closest / filter, from the top and from the deepest element.
+    `depth` is a multiple of sys.getrecursionlimit() so the check does not depend on the limit in force."""
+    import sys
+    import bs4
+    import soupsieve as sv
+    quick = chk.tier == 'quick'
+    depth = int(sys.getrecursionlimit() * (1.15 if quick else 4))
+    shapes = DEEP_SHAPES
+    sels = list(ALL_PSEUDO) + ['div div span', 'p > * > *', '* ~ *', ':not(:dir(rtl))', ':has(#leaf)', 'p :dir(rtl)', '#leaf:dir(ltr)',
+                               ':is(fieldset, b, span, div):disabled', 'form :default', ':lang(de)']
+    calls = 0
+    for k, (o, c, leaf, pattr) in enumerate(shapes):
+        soup = deep_doc(k, depth)
+        top, lf = soup.find(id='top'), soup.find(id='leaf')
+        if lf is None:
+            continue
+        # whole-tree selects are quadratic for some selectors at this depth: the quick tier asks about single elements
+        # (the deepest one, whose ancestor walks are the longest) for every selector and selects with a few
+        whole = set(sels if not quick else [':dir(rtl)', rng.choice(ALL_PSEUDO)])
+        climb = set(sels if not quick else rng.sample(sels, len(sels) // 4) + [':dir(ltr)', ':lang(en)', ':disabled'])
+        for sel in sels:
+            entry = [('match leaf', lambda: sv.match(sel, lf)), ('match top', lambda: sv.match(sel, top))]
+            if sel in climb:
+                entry.append(('closest leaf', lambda: sv.closest(sel, lf)))
+            if sel in whole:
+                entry += [('select', lambda: sv.select(sel, soup)), ('select_one', lambda: sv.select_one(sel, top)),
+                          ('filter top', lambda: sv.filter(sel, top))]
+            for what, fn in entry:
+                calls += 1
+                try:
+                    fn()
+                except Exception as e:      # noqa: BLE001
+                    raised.append({'what': f'{what} raised {type(e).__name__} on a tree nested {depth} deep', 'selector': sel,
+                                   'deep_shape': k, 'depth': depth, 'exception': type(e).__name__})
+                    break
+    chk.coverage['deep_tree_depth'] = depth
+    chk.coverage['deep_tree_calls'] = calls
+    return calls
+
+
 def run(chk):
     import framework
     import matchcorr
@@ -303,6 +362,7 @@ def run(chk):
                     pass
                 except Exception as e:
                     raised.append({'what': f'{fn.__name__}({badt!r}) raised {type(e).__name__} instead of TypeError'})
+    evaluations += deep_sweep(chk, random.Random(chk.seed * 31 + 8), raised)
     sweep_calls = odd_state_sweep(chk, random.Random(chk.seed * 7919 + 8), raised)
     evaluations += sweep_calls
     nontriv += sweep_calls
@@ -337,6 +397,20 @@ def dec_val(v):
 
 def replay(chk, path):
     data = json.load(open(path))
+    if 'deep_shape' in data:
+        import soupsieve as sv
+        soup = deep_doc(data['deep_shape'], data['depth'])
+        top, lf, sel = soup.find(id='top'), soup.find(id='leaf'), data['selector']
+        for fn in (lambda: sv.select(sel, soup), lambda: sv.select_one(sel, top), lambda: sv.match(sel, lf), lambda: sv.closest(sel, lf),
+                   lambda: sv.match(sel, top), lambda: sv.filter(sel, top)):
+            try:
+                fn()
+            except Exception as e:      # noqa: BLE001
+                print(json.dumps({'exception': type(e).__name__}))
+                print(f'VIOLATION property={PID} replay={path}')
+                return 1
+        print(json.dumps({'exception': None}))
+        return 0
     if 'tree' not in data:
         return 0
 
